@@ -209,14 +209,29 @@ def strip_mp(attr):
     return a
 
 
+class HandlerDown(Exception):
+    pass
+
+
 class Case(object):
     """runs one history on the implementation, checks the oracle on the way, and records the model requests
     together with the implementation's observations for the comparison with the Lean model"""
 
-    def __init__(self, res, rib, ids, oracle=True):
+    def __init__(self, res, rib, ids, oracle=True, fault=False):
         self.res = res
         self.rib = rib
         self.real = R.RealRib(rib, ids)
+        self.fault = bool(fault)
+        if fault:
+            # the application's handler fails in its update callback (a collector that is down, a log file that was
+            # removed under it ...): yabgp catches and logs that; the tables and counters must track the UPDATEs all the same
+            h = self.real.sim.handler
+            orig = h.update_received
+
+            def faulty(*a, _orig=orig, **kw):
+                _orig(*a, **kw)
+                raise HandlerDown('handler down')
+            h.update_received = faulty
         self.ids = ids
         self.oracle = Oracle(rib) if oracle else None
         self.oracle_ok = True
@@ -236,10 +251,10 @@ class Case(object):
             self.skipped = self.real.problem
         if self.real.trouble:
             self.res.fail('C19', 'the RIB / version bookkeeping raised or disturbed the session: %s' % self.real.trouble,
-                          {'rib': self.rib, 'events': list(self.events)}, key='bookkeeping-exception')
+                          {'rib': self.rib, 'fault': self.fault, 'events': list(self.events)}, key='bookkeeping-exception')
             self.real.trouble = None
         if self.oracle is not None and self.oracle_ok and not self.skipped:
-            self.oracle_ok = self.oracle.check(self.res, self.real, {'rib': self.rib, 'events': list(self.events)})
+            self.oracle_ok = self.oracle.check(self.res, self.real, {'rib': self.rib, 'fault': self.fault, 'events': list(self.events)})
 
     def apply(self, ev):
         k = ev['k']
@@ -321,8 +336,8 @@ class Runner(object):
         self.n_req = 0
         self.flush_at = flush_at
 
-    def run(self, rib, events, oracle=True, tag='', sample=False):
-        c = Case(self.res, rib, self.ids, oracle)
+    def run(self, rib, events, oracle=True, tag='', sample=False, fault=False):
+        c = Case(self.res, rib, self.ids, oracle, fault)
         c.apply({'k': 'connect'})
         for ev in events:
             if c.skipped:
@@ -359,7 +374,7 @@ class Runner(object):
                     m = dict(m, tree=None)
                 if io != m:
                     self.res.disagree('rib step %d (%s)' % (j - 1, c.reqs[j].get('op')),
-                                      {'rib': c.rib, 'events': c.events[:j],
+                                      {'rib': c.rib, 'fault': c.fault, 'events': c.events[:j],
                                        'ids': {str(x): self.ids.name(x) for x in _ids_in(io, m)}}, io, m)
                     break
         self.pending = []
@@ -542,7 +557,10 @@ def run(seed, tier, driver):
     for i in range(n_rand):
         rib = r.random() < 0.9
         evs = rnd_history(r, r.choice([5, 10, 20, 40, 40]))
-        c = run_.run(rib, evs, tag='rnd', sample=(i < 2))
+        fault = i % 8 == 3
+        if fault:
+            res.stats.hit('histories_with_failing_handler')
+        c = run_.run(rib, evs, tag='rnd-fault' if fault else 'rnd', sample=(i < 2), fault=fault)
         for e in c.events:
             res.stats.hit('event_' + e['k'])
     # (d) the anchored methods called directly on the protocol object (tie only)
@@ -563,7 +581,7 @@ def _replay_cases(cases, driver, name):
         evs = list(c['events'])
         if evs and evs[0].get('k') == 'connect':
             evs = evs[1:]
-        run_.run(bool(c.get('rib', True)), evs, oracle=not has_call, tag='replay', sample=True)
+        run_.run(bool(c.get('rib', True)), evs, oracle=not has_call, tag='replay', sample=True, fault=bool(c.get('fault')))
     run_.flush()
     return res
 
@@ -575,11 +593,11 @@ def replay(path, driver):
     for f in d.get('failures', []):
         rp = f.get('replay', {})
         if 'events' in rp:
-            cases.append({'rib': rp.get('rib', True), 'events': rp['events']})
+            cases.append({'rib': rp.get('rib', True), 'fault': rp.get('fault'), 'events': rp['events']})
     for dis in d.get('disagreements', []) + [x for s in d.get('broken_correspondence', []) for x in s.get('disagreements', [])]:
         cs = dis.get('case', {})
         if 'events' in cs:
-            cases.append({'rib': cs.get('rib', True), 'events': cs['events']})
+            cases.append({'rib': cs.get('rib', True), 'fault': cs.get('fault'), 'events': cs['events']})
     if 'events' in d:
         cases.append({'rib': d.get('rib', True), 'events': d['events']})
     return _replay_cases(cases, driver, 'rib-replay')
